@@ -397,6 +397,36 @@ def known_findings(pid):
     return res
 
 
+# ----------------------------------------------------------------------------- generated-from-source tie (DESIGN §4.2)
+
+def gen_status(gen="decisions_cli"):
+    """status file written by tools/gen/<gen>.py: {target: {translated, message, file, source, source_sha}}"""
+    p = os.path.join(CACHE, "gen", gen + ".json")
+    try:
+        return json.load(open(p))
+    except (OSError, ValueError):
+        return {}
+
+
+def report_gen_drift(ctx, gen, names, found_failure, vfile=None):
+    """a decision expression the translator could not handle: the theorems are about the hand-written copy, the tie
+    from the source text to the Coq definition is broken -> VIOLATION ... no-failing-input-found (unless the search
+    of this run already produced a concrete failing input)"""
+    st = gen_status(gen)
+    bad = [n for n in names if n in st and not st[n]["translated"]]
+    missing = [n for n in names if n not in st]
+    ctx.cov["generated_from_source"] = sorted(set(ctx.cov.get("generated_from_source", [])) |
+                                              set(n for n in names if n in st and st[n]["translated"]))
+    ctx.cov["generated_fallback"] = sorted(set(ctx.cov.get("generated_fallback", [])) | set(bad + missing))
+    if (bad or missing) and not found_failure:
+        vfile = vfile or "Gen/%s.v" % "".join(w.capitalize() for w in gen.split("_"))
+        ctx.violation("decision expression(s) no longer translatable from the source text; the theorems now speak about "
+                      "the hand-written copy only: " + "; ".join("%s (%s): %s" % (
+                          n, st.get(n, {}).get("file", "?"), st.get(n, {}).get("message", "no status"))
+                          for n in bad + missing),
+                      dict(theorem_or_correspondence="%s <-> source text" % vfile, targets=bad + missing), nfi=True)
+
+
 # ----------------------------------------------------------------------------- context
 
 class Ctx:
